@@ -57,6 +57,26 @@ def translate():
     return rc == 0, out.strip()
 
 
+def coq_deps(files):
+    """transitive closure of the Qv modules imported by the given .v files (paths relative to coq/): set of 'Dir/Name.v'"""
+    seen, todo = set(), list(files)
+    while todo:
+        f = todo.pop()
+        if f in seen:
+            continue
+        seen.add(f)
+        path = os.path.join(COQ, f)
+        if not os.path.exists(path):
+            continue
+        txt = open(path, encoding='latin-1').read()
+        for m in re.finditer(r'Require\s+(?:Import|Export)\s+(.*?)\.\s', txt, flags=re.S):
+            for mod in m.group(1).split():
+                mod = mod.replace('Qv.', '')
+                if '.' in mod:
+                    todo.append(mod.replace('.', '/') + '.v')
+    return seen
+
+
 # ------------------------------------------------------------------ coq
 def coq_project():
     files = []
